@@ -138,9 +138,9 @@ Qed.
 (* ------------------------------------------------------------------------- satisfiability *)
 (* let s0 = {a | default = 1, b = a + 1} in let s1 = {a = 5} in let s2 = s0 & s1 in let s3 = s2 & s0 in .. *)
 Definition example_history : history :=
-  [ SLit [(0%N, {| fprio := PBot; fbody := Some (Num 1) |});
-          (1%N, {| fprio := PNeut; fbody := Some (Add (Var 0%N) (Num 1)) |})];
-    SLit [(0%N, {| fprio := PNeut; fbody := Some (Num 5) |})];
+  [ SLit [(0%N, {| fprio := PBot; fbody := Some (Num 1); fdyn := false |});
+          (1%N, {| fprio := PNeut; fbody := Some (Add (Var 0%N) (Num 1)); fdyn := false |})];
+    SLit [(0%N, {| fprio := PNeut; fbody := Some (Num 5); fdyn := false |})];
     SMerge 0 1;
     SMerge 2 0 ].
 
@@ -150,10 +150,86 @@ Proof.
 Qed.
 
 Example example_history_values :
-  let (st, slots) := irun cfg_real example_history in
+  let (st, slots) := irun cfg_fixed example_history in
   map (fun sl => match sl with Rid r => ifields 5 st r | _ => [] end) slots
   = [ [(0%N, Ok 1); (1%N, Ok 2)];                 (* the operand keeps its own values *)
       [(0%N, Ok 5)];
       [(1%N, Ok 6); (0%N, Ok 5)];                 (* b recomputed from the overriding a *)
       [(1%N, Ok 6); (0%N, Ok 5)] ].
 Proof. vm_compute. reflexivity. Qed.
+
+(* ------------------------------------------------------------------------- the code as it is
+   The only difference between [cfg_current] (RecordInsert/closurize as they are) and [cfg_fixed] is the
+   indirection put in front of the thunk of a dynamically named field: on histories without
+   dynamically named fields the two configurations run identically, so every theorem above holds of
+   the current code for such histories. *)
+Definition set_wrap (b : bool) (c : cfg) : cfg :=
+  {| c_an := c_an c; c_unknown := c_unknown c; c_revert := c_revert c; c_patch := c_patch c; c_wrap_dyn := b |}.
+
+Definition lit_static (l : literal) : Prop := forall k d, In (k, d) l -> fdyn d = false.
+Definition hist_static (h : history) : Prop := forall l, In (SLit l) h -> lit_static l.
+
+Lemma insert_dyn_static : forall c l ths r, lit_static l -> insert_dyn c ths l r = (ths, r).
+Proof.
+  intros c. induction l as [|[k0 d] l IH]; intros ths r Hs; [destruct r; reflexivity|].
+  destruct r as [|[k f] r]; [reflexivity|]. cbn [insert_dyn].
+  rewrite (Hs k0 d (or_introl eq_refl)). rewrite (IH ths r (fun k' d' H => Hs k' d' (or_intror H))). reflexivity.
+Qed.
+
+Lemma alloc_lit_wrap : forall b c names ths l, alloc_lit (set_wrap b c) names ths l = alloc_lit c names ths l.
+Proof.
+  intros b c names ths l. revert ths. induction l as [|[k d] l IH]; intros ths; cbn [alloc_lit]; [reflexivity|].
+  destruct (fbody d) as [t|]; rewrite IH; reflexivity.
+Qed.
+
+Lemma eval_literal_static : forall b c st l, lit_static l -> eval_literal (set_wrap b c) st l = eval_literal c st l.
+Proof.
+  intros b c st l Hs. unfold eval_literal. rewrite alloc_lit_wrap.
+  destruct (alloc_lit c (lit_scope l) (thunks st) l) as [ths r]. cbn [c_patch set_wrap].
+  destruct (patch_all (c_patch c) (length (recs st)) ths r) as [ths'|]; [|reflexivity].
+  rewrite !insert_dyn_static by exact Hs. reflexivity.
+Qed.
+
+Lemma merge_all_wrap : forall b c names ths C, merge_all (set_wrap b c) names ths C = merge_all c names ths C.
+Proof.
+  intros b c names ths C. revert ths. induction C as [|[k [f1 f2]] C IH]; intros ths; cbn [merge_all]; [reflexivity|].
+  replace (merge_fld (set_wrap b c) names ths f1 f2) with (merge_fld c names ths f1 f2) by reflexivity.
+  destruct (merge_fld c names ths f1 f2) as [ths1 f]. rewrite IH. reflexivity.
+Qed.
+
+Lemma merge_wrap : forall b c st r1 r2, merge (set_wrap b c) st r1 r2 = merge c st r1 r2.
+Proof.
+  intros b c st r1 r2. unfold merge, merge_general. cbn [c_revert c_patch set_wrap].
+  destruct (nth_error (recs st) r1) as [[|a l1]|]; destruct (nth_error (recs st) r2) as [[|b' l2]|]; try reflexivity.
+  destruct (revert_all (c_revert c) (thunks st) (split_left (a :: l1) (b' :: l2))) as [ths1 L'].
+  destruct (revert_all (c_revert c) ths1 (split_left (b' :: l2) (a :: l1))) as [ths2 R'].
+  rewrite merge_all_wrap. reflexivity.
+Qed.
+
+Theorem static_history_same : forall b c h,
+  hist_static h -> forall sd, irun_from (set_wrap b c) sd h = irun_from c sd h.
+Proof.
+  intros b c. induction h as [|s h IH]; intros Hs sd; cbn [irun_from fold_left]; [reflexivity|].
+  assert (Hstep : istep (set_wrap b c) sd s = istep c sd s).
+  { destruct sd as [st done]. destruct s as [l|i j]; cbn [istep].
+    - rewrite (eval_literal_static b c st l (Hs l (or_introl eq_refl))). reflexivity.
+    - destruct (nth_error done i) as [[r1| |]|]; destruct (nth_error done j) as [[r2| |]|]; try reflexivity.
+      rewrite merge_wrap. reflexivity. }
+  rewrite Hstep. apply IH. intros l H. apply Hs. right. exact H.
+Qed.
+
+(* the property's sentence for the current code, on histories without dynamically named fields *)
+Theorem history_fields_current : forall h i,
+  hist_static h -> lits_ok h ->
+  let (st, slots) := irun cfg_current h in
+  match nth_error slots i, nth_error (srun h) i with
+  | Some (Rid r), Some (Some R) => forall fuel k, ifield fuel st r k = sfield fuel R k
+  | Some BadRef, Some None => True
+  | None, None => True
+  | _, _ => False
+  end.
+Proof.
+  intros h i Hs Hl. unfold irun.
+  change cfg_current with (set_wrap true cfg_fixed). rewrite (static_history_same true cfg_fixed h Hs).
+  exact (history_fields cfg_fixed h i cfg_fixed_faithful Hl).
+Qed.
